@@ -30,7 +30,11 @@ func quietMs(rng *rand.Rand, periodMs int) int {
 	if periodMs <= 0 {
 		return pickInt(rng, 1100, 5500, 16000, 61000, 600000)
 	}
-	return pickInt(rng, 1100, 5500, 16000, 31000)
+	q := pickInt(rng, 1100, 5500, 16000, 31000)
+	if q > 40*periodMs {
+		q = 40 * periodMs
+	}
+	return q
 }
 
 func baseTree(g GenCtx) (*Tree, *rand.Rand) {
@@ -116,9 +120,14 @@ func genC05(g GenCtx) interface{} {
 	late := rng.Intn(2) == 0
 	mk := func() {
 		p := b.randParent(rng, 3)
-		if rng.Intn(3) == 0 && len(b.publishers) < 4 {
+		switch {
+		case rng.Intn(3) == 0 && len(b.publishers) < 4:
 			b.add(p, "clone", TAct{})
-		} else {
+		case rng.Intn(6) == 0:
+			// a filtered sibling: whatever it does to the events it is handed must
+			// not show in what the plain subscribers of the same tree receive
+			b.add(p, pick(rng, "subf", "clonef"), TAct{Filter: randFilter(rng), Reader: "eager"})
+		default:
 			b.add(p, "sub", TAct{Reader: "eager"})
 		}
 	}
@@ -535,6 +544,17 @@ func genC12(g GenCtx) interface{} {
 		}
 		sc.Trigger.AtStep = (g.Idx / 4) % span
 	}
+	if g.Idx%128 == 77 && !sc.ZeroPeriod {
+		// a crowd: hundreds of live subscriptions on one publisher when it shuts
+		// down (a fan-out server with one subscription per client)
+		p := b.randParent(rng, 2)
+		for i := pickInt(rng, 130, 260, 300, 520); i > 0; i-- {
+			b.add(p, "sub", TAct{Reader: pick(rng, "eager", "stalled", "stalled")})
+		}
+		sc.Sim.MaxSteps = 1500000
+		est += 4 * len(b.kinds)
+		sc.Trigger = &Trigger{AtStep: est/2 + rng.Intn(est), Kind: pick(rng, "close", "cancel")}
+	}
 	if g.Idx%16 == 9 && !sc.ZeroPeriod {
 		// a relist that differs from the cache by hundreds of objects (the watch
 		// is connected but silent), with the shutdown request landing while the
@@ -557,7 +577,7 @@ func genC12(g GenCtx) interface{} {
 
 // ---------------------------------------------------------------- C14
 
-var listFailKinds = []string{"error", "error-typed-nil", "error-with-list", "error-with-full-list", "error-timeout", "error-canceled", "error-canceled-bare", "error-deadline-bare", "error-notrunning", "error-notrunning-wrapped", "nonlist", "nonobjects", "noitems", "status-object", "nil"}
+var listFailKinds = []string{"error", "error-typed-nil", "error-with-list", "error-with-full-list", "error-timeout", "error-canceled", "error-canceled-bare", "error-deadline-bare", "error-notrunning", "error-notrunning-wrapped", "nonlist", "nonobjects", "noitems", "status-object", "unstructured-object", "nil"}
 
 func genC14(g GenCtx) interface{} {
 	sc, rng := baseTree(g)
@@ -691,6 +711,13 @@ func genC08(g GenCtx) interface{} {
 	nkeys := 1 + rng.Intn(4)
 	sc.Init = genInit(rng, nkeys)
 	static := rng.Intn(2) == 0
+	if rng.Intn(80) == 0 {
+		// a large first list (Ready means: all of it was applied); a Refilter over
+		// it is one batch larger than any buffer, so overflow is legitimate here
+		sc.Init = append(sc.Init, bulkInit(rng, pickInt(rng, 300, 1030, 4100, 9000))...)
+		sc.NoOverflow = false
+		sc.Sim.MaxSteps = 600000
+	}
 	sc.Static = static
 	// (only with a static server: a watch started "from now" may miss what was written since the list)
 	sc.EmptyListRV = static && sc.PeriodMs == 0 && rng.Intn(3) == 0
